@@ -88,6 +88,33 @@ class Observer(object):
                 if isinstance(p, M.Surface):
                     b.append(self.uid(p.image))
                     self.bind(p, '#' + (p.xmlnode.find('.//' + col.tag('init_from')).text or ''), p.image, 'images')
+                elif isinstance(p, M.Sampler2D):
+                    b.append(self.uid(p.surface))
+                    if not any(p.surface is q_ for q_ in o.params):
+                        self.structure.append(('foreign-surface', 'sampler %r of effect %r is bound to a surface that is not a '
+                                               'parameter of this effect' % (p.id, o.id)))
+            # textures of the shading properties (0 = the property had a <texture> but is not a Map), then the bump map
+            shader = None
+            prof = o.xmlnode.find(col.tag('profile_COMMON'))
+            tec = prof.find(col.tag('technique')) if prof is not None else None
+            if tec is not None:
+                for sh in o.shaders:
+                    shader = tec.find(col.tag(sh))
+                    if shader is not None:
+                        break
+            for prop in o.supported:
+                pn = shader.find(col.tag(prop)) if shader is not None else None
+                if pn is not None and pn.find(col.tag('texture')) is not None:
+                    v = getattr(o, prop, None)
+                    b.append(self.uid(v.sampler) if isinstance(v, M.Map) else 0)
+                    if isinstance(v, M.Map) and not any(v.sampler is q_ for q_ in o.params):
+                        self.structure.append(('foreign-sampler', 'texture of %s in effect %r is bound to a sampler that is not a '
+                                               'parameter of this effect' % (prop, o.id)))
+            if getattr(o, 'bumpmap', None) is not None:
+                b.append(self.uid(o.bumpmap.sampler))
+                if not any(o.bumpmap.sampler is q_ for q_ in o.params):
+                    self.structure.append(('foreign-sampler', 'bump map of effect %r is bound to a sampler that is not a parameter '
+                                           'of this effect' % (o.id,)))
             items.append(['LEffects', self.uid(o), o.id, b])
         for o in col.materials:
             items.append(['LMaterials', self.uid(o), o.id, [self.uid(o.effect)]])
